@@ -14,6 +14,7 @@ import glob
 import itertools
 import json
 import os
+import random
 import re
 
 from vlib.core import C, Raw, coq
@@ -398,6 +399,417 @@ def later_occurrence_matters(prog):
     return template_model(prog, True) != template_model(prog, False)
 
 
+# ------------------------------------------------------------------ wildcard-negation stream (round 3, seed C20-5)
+# A negated atom that still contains `_` after substitution holds iff NO stored fact UNIFIES with
+# it (engine/premise.go premiseNegAtom); an engine that looks the evaluated atom up by membership
+# never finds `path(1, _)` and lets the negation succeed. dc.Gen never writes a wildcard into a
+# negated atom; dc.add_wild_neg (C01's template, reused by import) does. The programs are ordinary
+# members of the main pipeline: Go naive vs Go semi-naive is the verdict, both are compared with
+# the Coq models (the encoders give every `_` a fresh variable of its own; Solve.v `step` and
+# Naive.v `nstep` on PNeg fail iff some stored fact unifies, i.e. the existential reading).
+def wildneg_programs(wrng, want, big=False):
+    progs, gstats, tries = [], {}, 0
+    while len(progs) < want and tries < 4 * want:
+        tries += 1
+        p, sig = dc.gen_program_sig(wrng, big and wrng.random() < 0.3)
+        st = dc.add_wild_neg(wrng, p, sig, prob=0.6)
+        if not st:
+            continue
+        p = transform_free(p)
+        one_home_per_predicate(p, wrng)
+        give_facts(p, wrng)
+        for k, n in st.items():
+            gstats[k] = gstats.get(k, 0) + n
+        progs.append(p)
+    return progs, gstats
+
+
+def wildneg_strip(prog):
+    """The program without its negated atoms that contain a wildcard: what an engine computes
+    that lets every such negation succeed. Used to count the programs sensitive to the reading."""
+    q = copy.deepcopy(prog)
+    for c in q["clauses"]:
+        c["body"] = [p for p in c["body"] if not (p[0] == "neg" and ["wild"] in p[1]["args"])]
+    return q
+
+
+# ------------------------------------------------------------------ built-in predicate stream (round 3, seed C20-4)
+# Rules whose bodies contain built-in PREDICATE atoms with output places - :match_pair(P, A, B),
+# :match_cons(L, H, T), :list:member(X, L) - and tests (:lt, :le, :gt, :ge, :match_nil, negated
+# ground tests), over pair / list valued columns. The built-in stands BEFORE the atoms (the
+# recursive atom in particular) that share its output variables: the analysis accepts an output
+# place only while the variable is still free, so those atoms become look-ups with bound arguments
+# and any engine that evaluates them earlier (join re-ordering, delta premise first) hands the
+# built-in a constant at an output place. Premises are put in a random order among the orders the
+# mode discipline accepts. C01's Solve.v has no built-in predicate atoms, so this stream is judged
+# on Go's own outputs only (Go-side oracle: the property itself - equal fact sets, equal error
+# class; an error in one engine and a result in the other is a violation). Kept away from the known
+# C04 findings: no negated built-in with a wildcard or with an output place (N105, N106), no
+# repeated output variable (N107), no constant / function application at an output or input place
+# sharing an output variable (N108); column types are fixed so that no built-in sees a value of the
+# wrong type (the semi-naive engine aborts on a built-in error, the naive one drops the solution).
+def _bt(c):
+    if isinstance(c, tuple):
+        return "fn:pair(%s, %s)" % (_bt(c[0]), _bt(c[1]))
+    if isinstance(c, list):
+        return "[%s]" % ", ".join(_bt(x) for x in c)
+    return str(c)
+
+
+def _pm(text, need=(), free=(), bind=(), rec=False, builtin=False):
+    return {"t": text, "need": set(need), "free": set(free), "bind": set(bind) | set(free), "rec": rec, "bi": builtin}
+
+
+def _at(pred, *vs, rec=False):
+    return _pm("%s(%s)" % (pred, ", ".join(vs)), bind=[v for v in vs if v[:1].isupper()], rec=rec)
+
+
+def _order_ok(body):
+    bound = set()
+    for p in body:
+        if not p["need"] <= bound or p["free"] & bound:
+            return False
+        bound |= p["bind"]
+    return True
+
+
+def _valid_orders(body):
+    return [list(o) for o in itertools.permutations(body) if _order_ok(o)] if len(body) <= 6 else [body]
+
+
+def _rule(rng, head, body, stats):
+    """head :- body in a uniformly random premise order among those the modes accept."""
+    assert _order_ok(body), (head, [p["t"] for p in body])
+    orders = _valid_orders(body)
+    body = rng.choice(orders)
+    stats["rules"] = stats.get("rules", 0) + 1
+    stats["valid_orders_total"] = stats.get("valid_orders_total", 0) + len(orders)
+    seen_out, hazard = set(), False
+    for i, p in enumerate(body):
+        if p["rec"] and i > 0 and (set(p["bind"]) & seen_out):
+            hazard = True
+        if p["bi"]:
+            seen_out |= p["free"]
+            stats["builtin:" + p["t"].split("(")[0].lstrip("!")] = stats.get("builtin:" + p["t"].split("(")[0].lstrip("!"), 0) + 1
+    if any(p["rec"] for p in body):
+        stats["recursive_rules"] = stats.get("recursive_rules", 0) + 1
+    if hazard:
+        stats["recursive_atom_after_builtin_sharing_an_output_variable"] = \
+            stats.get("recursive_atom_after_builtin_sharing_an_output_variable", 0) + 1
+    return ("%s :- %s." % (head, ", ".join(p["t"] for p in body))), hazard
+
+
+def _bi_finish(rng, rules, facts, derived, feature, hazard):
+    """facts: [(pred, [consts])]. Extensional predicates live in the text or (whole predicate) in
+    the caller's store; derived predicates' seed facts in the text."""
+    text, pre, seen = [], [], set()
+    home = {}
+    use_store = rng.random() < 0.35
+    for pred, row in facts:
+        line = "%s(%s)." % (pred, ", ".join(_bt(c) for c in row))
+        if line in seen:
+            continue
+        seen.add(line)
+        if pred not in home:
+            home[pred] = "pre" if (use_store and pred not in derived and rng.random() < 0.5) else "text"
+        (pre if home[pred] == "pre" else text).append(line)
+    lines = text + rules
+    rng.shuffle(lines)
+    return {"src": "\n".join(lines) + "\n", "pre": "\n".join(pre), "template": feature, "hazard": hazard}
+
+
+def _elems(rng, n):
+    if rng.random() < 0.3:
+        return ["/e%d" % i for i in range(1, n + 1)], True
+    return list(range(1, n + 1)), False
+
+
+def bi_pair_reach(rng, stats):
+    """reach(Z) :- link(P), :match_pair(P, Y, Z), reach(Y).  (forward / backward, link with a key
+    column and a guard atom, extra tests, a second recursive atom, mutual recursion, an upper layer)."""
+    n = rng.randint(4, 8)
+    el, names = _elems(rng, n)
+    edges = set()
+    for i in range(n - 1):
+        if rng.random() < 0.8:
+            edges.add((el[i], el[i + 1]))
+    for _ in range(rng.randint(1, 4)):
+        edges.add((rng.choice(el), rng.choice(el)))
+    edges = sorted(edges, key=str)
+    fwd = rng.random() < 0.6
+    keyed = rng.random() < 0.4
+    mutual = rng.random() < 0.25
+    rules, facts, hz = [], [], False
+
+    def rec_rule(head_pred, link_pred, body_pred):
+        body = []
+        if keyed:
+            body += [_at(link_pred, "K", "P"), _at("ok", "K")]
+        else:
+            body.append(_at(link_pred, "P"))
+        body.append(_pm(":match_pair(P, Y, Z)", need=["P"], free=["Y", "Z"], builtin=True))
+        src, dst = ("Y", "Z") if fwd else ("Z", "Y")
+        body.append(_at(body_pred, src, rec=True))
+        x = rng.random()
+        if x < 0.2:
+            body.append(_pm("Y != Z", need=["Y", "Z"]))
+        elif x < 0.35 and not names:
+            body.append(_pm(":le(%s, %d)" % (dst, n), need=[dst], builtin=True))
+        elif x < 0.5:
+            body += [_at("gate", dst, "W"), _at(body_pred, "W", rec=True)]
+        r, h = _rule(rng, "%s(%s)" % (head_pred, dst), body, stats)
+        rules.append(r)
+        return h
+    if mutual:
+        hz = rec_rule("ra", "la", "rb") | rec_rule("rb", "lb", "ra")
+        derived = {"ra", "rb"}
+        for k, (a, b) in enumerate(edges):
+            lp = rng.choice(["la", "lb"])
+            facts.append((lp, ([k % 3] if keyed else []) + [(a, b)]))
+        facts += [("la", ([0] if keyed else []) + [(el[0], el[0])]), ("lb", ([0] if keyed else []) + [(el[-1], el[-1])])]
+        facts += [("ra", [el[0] if fwd else el[-1]]), ("rb", [el[0] if fwd else el[-1]])]
+        target = "ra"
+    else:
+        hz = rec_rule("reach", "link", "reach")
+        derived = {"reach"}
+        for k, (a, b) in enumerate(edges):
+            facts.append(("link", ([k % 3] if keyed else []) + [(a, b)]))
+        seed = el[0] if fwd else el[-1]
+        if rng.random() < 0.5:
+            rules.append("reach(X) :- start(X).")
+            facts.append(("start", [seed]))
+        else:
+            facts.append(("reach", [seed]))
+        if rng.random() < 0.3:
+            facts.append(("reach", [rng.choice(el)]))
+        target = "reach"
+    if keyed:
+        facts += [("ok", [0]), ("ok", [rng.choice([1, 2])])]
+    if any("gate(" in r for r in rules):
+        facts += [("gate", [rng.choice(el), rng.choice(el)]) for _ in range(rng.randint(2, 5))]
+        facts += [("gate", [e, e]) for e in rng.sample(el, 2)]
+    if rng.random() < 0.35:
+        rules.append("out(X) :- cand(X), !%s(X)." % target)
+        derived.add("out")
+        facts += [("cand", [e]) for e in rng.sample(el, min(n, 4))]
+    return _bi_finish(rng, rules, facts, derived, "pair-reach", hz)
+
+
+def bi_member_reach(rng, stats):
+    """r(Y) :- e(X, L), :list:member(Y, L), r(X).  and backward  r(X) :- e(X, L), :list:member(Y, L), r(Y)."""
+    n = rng.randint(4, 8)
+    el, names = _elems(rng, n)
+    facts = []
+    for i, x in enumerate(el):
+        if rng.random() < 0.8:
+            succ = rng.sample(el, rng.randint(1, 3))
+            if i + 1 < n and rng.random() < 0.6:
+                succ.append(el[i + 1])
+            facts.append(("e", [x, succ]))
+    if not facts:
+        facts.append(("e", [el[0], [el[1]]]))
+    fwd = rng.random() < 0.5
+    body = [_at("e", "X", "L"), _pm(":list:member(Y, L)", need=["L"], free=["Y"], builtin=True),
+            _at("r", "X" if fwd else "Y", rec=True)]
+    x = rng.random()
+    if x < 0.25:
+        body.append(_pm("X != Y", need=["X", "Y"]))
+    elif x < 0.45:
+        body.append(_at("keep", "Y"))
+        facts += [("keep", [e]) for e in rng.sample(el, max(2, n - 2))]
+    elif x < 0.6:
+        body.append(_pm("!block(Y)", need=["Y"]))
+        facts += [("block", [e]) for e in rng.sample(el, 1)]
+    rule, hz = _rule(rng, "r(%s)" % ("Y" if fwd else "X"), body, stats)
+    rules = [rule]
+    seed = rng.choice(el)
+    if rng.random() < 0.5:
+        rules.append("r(X) :- start(X).")
+        facts.append(("start", [seed]))
+    else:
+        facts.append(("r", [seed]))
+    derived = {"r"}
+    if rng.random() < 0.4:
+        # a non-recursive reader of the result, again through a built-in
+        r2, _ = _rule(rng, "both(X, Y)", [_at("r", "X"), _at("e", "X", "L"),
+                                          _pm(":list:member(Y, L)", need=["L"], free=["Y"], builtin=True),
+                                          _pm("!r(Y)", need=["Y"])], stats)
+        rules.append(r2)
+        derived.add("both")
+    return _bi_finish(rng, rules, facts, derived, "member-reach", hz)
+
+
+def bi_cons(rng, stats):
+    """Lists taken apart by :match_cons: suffix(T) :- suffix(L), :match_cons(L, H, T).
+    good(L) :- suffix(L), :match_cons(L, H, T), good(T), ok(H).  (recursive atom over the output T)
+    on(B) :- suffix(L), :match_cons(L, A, T), :match_cons(T, B, T2), on(A).  (over the output A)"""
+    n = rng.randint(4, 7)
+    el = list(range(1, n + 1))
+    facts = []
+    for _ in range(rng.randint(2, 4)):
+        facts.append(("path", [[rng.choice(el) for _ in range(rng.randint(1, 4))]]))
+    rules = ["suffix(L) :- path(L)."]
+    r, _ = _rule(rng, "suffix(T)", [_at("suffix", "L", rec=True), _pm(":match_cons(L, H, T)", need=["L"], free=["H", "T"], builtin=True)], stats)
+    rules.append(r)
+    derived = {"suffix"}
+    hz = False
+    kind = rng.choice(["good", "on", "both"])
+    if kind in ("good", "both"):
+        body = [_at("suffix", "L"), _pm(":match_cons(L, H, T)", need=["L"], free=["H", "T"], builtin=True),
+                _at("good", "T", rec=True)]
+        if rng.random() < 0.7:
+            body.append(_at("ok", "H"))
+            facts += [("ok", [e]) for e in rng.sample(el, max(2, n - 1))]
+        else:
+            body.append(_pm(":lt(H, %d)" % n, need=["H"], builtin=True))
+        r, h = _rule(rng, "good(L)", body, stats)
+        hz |= h
+        rules.append(r)
+        if rng.random() < 0.5:
+            facts.append(("good", [[]]))
+        else:
+            rules.append("good(L) :- suffix(L), :match_nil(L).")
+            stats["builtin::match_nil"] = stats.get("builtin::match_nil", 0) + 1
+        derived.add("good")
+    if kind in ("on", "both"):
+        body = [_at("suffix", "L"), _pm(":match_cons(L, A, T)", need=["L"], free=["A", "T"], builtin=True),
+                _pm(":match_cons(T, B, T2)", need=["T"], free=["B", "T2"], builtin=True), _at("on", "A", rec=True)]
+        r, h = _rule(rng, "on(B)", body, stats)
+        hz |= h
+        rules.append(r)
+        facts.append(("on", [rng.choice(el)]))
+        first = facts[0][1][0][0]
+        facts.append(("on", [first]))
+        derived.add("on")
+    return _bi_finish(rng, rules, facts, derived, "cons-lists", hz)
+
+
+def bi_nonrec(rng, stats):
+    """Non-recursive rules: the atom that shares the built-in's output variable comes after it."""
+    n = rng.randint(4, 7)
+    el = list(range(1, n + 1))
+    facts = [("num", [e]) for e in rng.sample(el, n - 1)]
+    facts += [("lst", [[rng.choice(el) for _ in range(rng.randint(0, 3))]]) for _ in range(rng.randint(2, 4))]
+    facts += [("pr", [(rng.choice(el), rng.choice(el))]) for _ in range(rng.randint(2, 5))]
+    rules = []
+    mk = [
+        lambda: _rule(rng, "m(X)", [_at("lst", "L"), _pm(":list:member(X, L)", need=["L"], free=["X"], builtin=True), _at("num", "X")], stats),
+        lambda: _rule(rng, "ab(A, B)", [_at("pr", "P"), _pm(":match_pair(P, A, B)", need=["P"], free=["A", "B"], builtin=True),
+                                        _at("num", "A"), _pm(":%s(A, B)" % rng.choice(["lt", "le", "gt", "ge"]), need=["A", "B"], builtin=True)], stats),
+        lambda: _rule(rng, "hd(H)", [_at("lst", "L"), _pm(":match_cons(L, H, T)", need=["L"], free=["H", "T"], builtin=True),
+                                     _pm("!num(H)", need=["H"])], stats),
+        lambda: _rule(rng, "sw(B, A)", [_at("pr", "P"), _pm(":match_pair(P, A, B)", need=["P"], free=["A", "B"], builtin=True),
+                                        _at("num", "B"), _pm("A != B", need=["A", "B"])], stats),
+        lambda: _rule(rng, "small(X)", [_at("num", "X"), _pm(":lt(X, %d)" % rng.randint(2, n), need=["X"], builtin=True),
+                                        _pm("!:gt(X, %d)" % rng.randint(1, n), need=["X"], builtin=True)], stats),
+        lambda: _rule(rng, "emp(L)", [_at("lst", "L"), _pm(":match_nil(L)", need=["L"], builtin=True)], stats),
+        lambda: _rule(rng, "tl2(T, X)", [_at("lst", "L"), _pm(":match_cons(L, H, T)", need=["L"], free=["H", "T"], builtin=True),
+                                         _pm(":list:member(X, T)", need=["T"], free=["X"], builtin=True), _at("num", "X")], stats),
+    ]
+    derived = set()
+    for f in rng.sample(mk, rng.randint(2, 4)):
+        r, _ = f()
+        rules.append(r)
+        derived.add(r.split("(")[0])
+    return _bi_finish(rng, rules, facts, derived, "non-recursive", False)
+
+
+BI_TEMPLATES = [bi_pair_reach, bi_pair_reach, bi_member_reach, bi_cons, bi_nonrec]
+
+
+def builtin_corpus():
+    here = os.path.dirname(os.path.abspath(__file__))
+    out = []
+    for path in sorted(glob.glob(os.path.join(here, "..", "corpus", "C20", "builtin", "*.json"))):
+        j = json.load(open(path))
+        out.append({"src": j["src"], "pre": j.get("pre", ""), "template": "corpus:builtin/" + os.path.basename(path), "hazard": True})
+    return out
+
+
+def bi_go_case(c):
+    return {"src": c["src"], "pre": c["pre"], "limit": LIMIT, "timeout_ms": 20000}
+
+
+def bi_side(side):
+    if side["err"] != "":
+        return side["err"], None
+    return "ok", sorted(json.dumps(f, sort_keys=True) for f in side["facts"])
+
+
+def bi_judge(out):
+    """Go-side oracle of the built-in stream: ('agree'|'violation'|'inconclusive', why)."""
+    (se, sf), (ne, nf) = bi_side(out["semi"]), bi_side(out["naive"])
+    if se in ("limit", "timeout") or ne in ("skipped", "timeout"):
+        return "inconclusive", "semi-naive %s, naive %s" % (se, ne)
+    if se != "ok" or ne != "ok":
+        return "violation", ("one engine finished, the other did not: semi-naive %s (%s), naive %s (%s)"
+                             % (se, out["semi"].get("msg", ""), ne, out["naive"].get("msg", "")))
+    if sf != nf:
+        return "violation", "the two engines finished with different fact sets"
+    return "agree", ""
+
+
+def builtin_stream(ck):
+    """Runs the built-in predicate stream, reports violations, returns its coverage dict."""
+    brng = random.Random("%s/builtin/%d" % (ck.pid, ck.seed))
+    stats = {}
+    cases = builtin_corpus()
+    ncorpus = len(cases)
+    for i in range(ck.n(80, 1500)):
+        cases.append(BI_TEMPLATES[i % len(BI_TEMPLATES)](brng, stats))
+    outs = ck.run_go("c20", [bi_go_case(c) for c in cases], timeout=3000)
+    res, tm, rejected = {}, {}, []
+    facts_derived = 0
+    for c, o in zip(cases, outs):
+        tm[c["template"]] = tm.get(c["template"], 0) + 1
+        if "out" not in o:
+            ck.violation({"property": "C20", "stream": "builtin", "kind": "harness error/panic", "src": c["src"], "pre": c["pre"], "impl": o})
+            continue
+        if o["out"]["stage"] != "ok":
+            rejected.append((c["src"], o["out"].get("msg", "")))
+            continue
+        v, why = bi_judge(o["out"])
+        res[v] = res.get(v, 0) + 1
+        if v == "violation" and len(ck.violations) < 8:
+            (se, sf), (ne, nf) = bi_side(o["out"]["semi"]), bi_side(o["out"]["naive"])
+            rep = {"property": "C20", "stream": "builtin", "kind": why, "origin": c["template"], "src": c["src"], "pre": c["pre"],
+                   "oracle": "Go-side oracle (the property itself on the implementation's two outputs; no Coq model of built-in "
+                             "predicate atoms): engine.EvalProgramNaive and engine.EvalProgram on copies of one store must end in "
+                             "the same error class and with equal fact sets",
+                   "go_naive": {"err": o["out"]["naive"]["err"], "msg": o["out"]["naive"].get("msg")},
+                   "go_semi": {"err": o["out"]["semi"]["err"], "msg": o["out"]["semi"].get("msg")},
+                   "why_violation": "engine.EvalProgramNaive and engine.EvalProgram, started from equal stores on a transform-free "
+                                    "program the analysis accepts, did not both finish with equal stores"}
+            if sf is not None and nf is not None:
+                rep["only_naive"] = sorted(set(nf) - set(sf))
+                rep["only_semi"] = sorted(set(sf) - set(nf))
+            elif nf is not None:
+                rep["naive_facts"] = nf
+            ck.violation(rep)
+        if v == "agree":
+            facts_derived += len(o["out"]["semi"]["facts"])
+    ngen = len(cases) - ncorpus
+    if len(rejected) > 0.05 * max(1, len(cases)):
+        ck.violation({"property": "C20", "stream": "builtin", "kind": "generator: more than 5% of the built-in stream rejected by analysis",
+                      "no_longer_checks": "built-in predicate stream of C20 (input distribution broken)",
+                      "samples": rejected[:3]}, "no-failing-input-found")
+    hz = sum(1 for c in cases if c["hazard"])
+    if hz < 0.3 * max(1, len(cases)):
+        ck.violation({"property": "C20", "stream": "builtin", "kind": "generator: fewer than 30% of the built-in programs put a recursive "
+                                                                      "atom after a built-in whose output variable it shares",
+                      "no_longer_checks": "built-in predicate stream of C20 (input distribution broken)"}, "no-failing-input-found")
+    ck.log("built-in stream: %d programs, %s, rejected %d" % (len(cases), res, len(rejected)))
+    return {"oracle": "Go-side oracle: naive vs semi-naive outputs of the implementation (error class and sorted fact sets); "
+                      "no Coq model (C01's Solve.v has no built-in predicate atoms)",
+            "programs": len(cases), "corpus": ncorpus, "generated": ngen, "evaluations": 2 * (len(cases) - len(rejected)),
+            "per_template": tm, "results": res, "rejected_by_analysis": len(rejected),
+            "rejected_samples": rejected[:2],
+            "programs_with_recursive_atom_after_builtin_sharing_an_output_variable": hz,
+            "generator": stats, "facts_in_agreeing_results": facts_derived,
+            "sample": cases[ncorpus]["src"] if ngen else ""}
+
+
+
 # ------------------------------------------------------------------ case encoding
 def go_case(prog, shuffle_rng=None):
     return {"src": dc.to_mangle(prog, shuffle_rng), "pre": dc.facts_text(prog.get("pre", [])),
@@ -505,7 +917,7 @@ def run(ck):
         origin.append("corpus:" + nm)
     ncorpus = len(progs)
     filled = 0
-    for _ in range(ck.n(206, 2400)):
+    for _ in range(ck.n(196, 2400)):
         p = transform_free(dc.gen_program(rng, big=(not ck.quick) and rng.random() < 0.5))
         one_home_per_predicate(p, rng)
         filled += 1 if give_facts(p, rng) else 0
@@ -522,6 +934,13 @@ def run(ck):
             tmpl_counts[nm] = tmpl_counts.get(nm, 0) + 1
             tmpl_sensitive[nm] = tmpl_sensitive.get(nm, 0) + (1 if later_occurrence_matters(p) else 0)
     ntemplate = len(progs) - ncorpus - nrandom
+    # wildcards inside negated atoms (own PRNG: the main stream of a seed stays as it is)
+    wrng = random.Random("%s/wildneg/%d" % (ck.pid, ck.seed))
+    wn_progs, wn_stats = wildneg_programs(wrng, ck.n(40, 500), big=not ck.quick)
+    wn_first = len(progs)
+    progs += wn_progs
+    origin += ["wildneg"] * len(wn_progs)
+    nwild = len(wn_progs)
     nexh = 0
     if not ck.quick:
         ex = list(exhaustive_programs())
@@ -531,6 +950,16 @@ def run(ck):
     go_cases = [go_case(p, shuffle_rng=rng if origin[i].startswith(("random", "template")) and rng.random() < 0.5 else None)
                 for i, p in enumerate(progs)]
     outs = ck.run_go("c20", go_cases, timeout=3000)
+    # generator health of the wildcard-negation stream: the same programs without the negated atoms
+    # that contain a wildcard (= an engine that lets each of them succeed); how many results change
+    wn_sensitive = 0
+    strip_outs = ck.run_go("c20", [go_case(wildneg_strip(p)) for p in wn_progs], timeout=3000) if wn_progs else []
+    for k, so in enumerate(strip_outs):
+        a, b = outs[wn_first + k].get("out"), so.get("out")
+        if a and b and a["stage"] == "ok" and b["stage"] == "ok" and a["semi"]["err"] == "" and b["semi"]["err"] == "" \
+                and a["semi"]["facts"] != b["semi"]["facts"]:
+            wn_sensitive += 1
+    bi_cov = builtin_stream(ck)
     ck.log("go side done: %d programs" % len(progs))
 
     terms, where = [], []
@@ -639,7 +1068,7 @@ def run(ck):
     nontrivial = set()
     for i, p in enumerate(progs):
         fs = set(p.get("features", []))
-        if fs & {"recursive", "neg", "cmp", "same-round", "arith", "head-fn", "exhaustive", "template"} or origin[i].startswith("corpus"):
+        if fs & {"recursive", "neg", "cmp", "same-round", "arith", "head-fn", "exhaustive", "template", "neg-wild"} or origin[i].startswith("corpus"):
             nontrivial.add(go_cases[i]["src"] + "#" + go_cases[i]["pre"])
     sizes = [len(out["semi"]["facts"]) for (_, out) in where if out["semi"]["err"] == ""]
     cov = {"evaluations": evaluations, "programs": len(progs), "comparisons": len(terms),
@@ -647,14 +1076,20 @@ def run(ck):
            "distinct_nontrivial": len(nontrivial),
            "rule": "programs through parse -> AnalyzeOneUnit (as EvalProgramNaive calls it) -> EvalProgram and "
                    "EvalProgramNaive on two copies of one SimpleInMemoryStore (corpus %d, random %d, non-linear templates %d, "
-                   "exhaustive %d); "
+                   "wildcard negation %d, exhaustive %d; the built-in predicate stream is counted in builtin_stream); "
                    "evaluations = engine runs; non-trivial = recursion, negation, comparison, arithmetic, head function "
-                   "or same-round join present; distinct by program text" % (ncorpus, nrandom, ntemplate, nexh),
+                   "or same-round join present; distinct by program text" % (ncorpus, nrandom, ntemplate, nwild, nexh),
            "nonlinear_templates": {"programs": tmpl_counts,
                                    "programs_where_a_later_occurrence_delta_rule_matters": tmpl_sensitive,
                                    "how_counted": "Python semi-naive evaluation of the template program with a delta "
                                                   "version per occurrence vs. only per distinct stratum predicate of a "
                                                   "body (generator health, no engine, no verdict)"},
+           "wildneg_stream": {"programs": nwild, "sensitive_programs": wn_sensitive, "generator": wn_stats,
+                              "rule": "generated programs whose clauses got wildcards inside negated atoms by dc.add_wild_neg "
+                                      "(C01's template): members of the main pipeline (Go naive vs Go semi-naive, both vs the Coq "
+                                      "models, which read an unbound variable of a negated atom existentially); sensitive = the "
+                                      "semi-naive Go result changes when every negated atom containing `_` is deleted"},
+           "builtin_stream": bi_cov,
            "exhaustive": nexh > 0,
            "exhaustive_scope": ("all %d stratifiable safe programs of 2 free rules (+1 seed rule) with bodies of <=2 literals "
                                 "(positive/negated atoms, =, !=, <) over 2 extensional and 2 derived predicates, 2 variables: "
@@ -686,6 +1121,16 @@ def run(ck):
                                                  "delta rule of a later occurrence",
                       "no_longer_checks": "correspondence Run.C20.judge (input distribution broken)",
                       "counts": tmpl_sensitive}, "no-failing-input-found")
+    if nwild and wn_sensitive < 0.15 * nwild:
+        ck.violation({"property": "C20", "kind": "generator: fewer than 15% of the wildcard-negation programs are sensitive to the "
+                                                 "reading of `_` in a negated atom",
+                      "no_longer_checks": "correspondence Run.C20.judge (input distribution broken)",
+                      "sensitive": wn_sensitive, "programs": nwild}, "no-failing-input-found")
+    rej_wn = [r for r in rejected if origin[r[0]] == "wildneg"]
+    if len(rej_wn) > 0.1 * max(1, nwild):
+        ck.violation({"property": "C20", "kind": "generator: more than 10% of the wildcard-negation programs rejected by analysis",
+                      "no_longer_checks": "correspondence Run.C20.judge (input distribution broken)",
+                      "samples": [(go_cases[i]["src"], m) for i, _, m in rej_wn[:3]]}, "no-failing-input-found")
     if both_finished < 0.6 * max(1, len(terms)):
         ck.violation({"property": "C20", "kind": "fewer than 60% of the programs were finished by both engines",
                       "no_longer_checks": "correspondence Run.C20.judge (input distribution broken)",
@@ -700,6 +1145,10 @@ def run(ck):
         "semi-naive evaluation errors (the naive engine drops the substitution instead) only naive Go vs naive model is compared",
         "programs are safe by construction (!=, comparisons, negation after their binders: N19, F3 belong to C04); typed "
         "columns so that no two facts of a predicate have equal Atom.Hash() (F8)",
+        "built-in predicate atoms are not in the Coq models (Solve.v / Naive.v): the built-in stream is judged by a Go-side oracle "
+        "(equal error class and equal fact sets of the two engines); typed columns, no trigger of N105-N108 (C04)",
+        "wildcards inside negated atoms are encoded as fresh variables (Syntax.v has no wildcard term); both models read them "
+        "existentially (step / nstep on PNeg fail iff some stored fact unifies)",
         "both Go engines call analysis.Stratify themselves; the theorem naive_eq_seminaive is stated for one common valid "
         "stratification (independence of the choice is tested here, not proved)"])
 
@@ -707,6 +1156,20 @@ def run(ck):
 def replay(ck, path):
     ck.build_harness()
     rep = json.load(open(path))
+    if rep.get("stream") == "builtin" or "program" not in rep:
+        # built-in predicate stream: Go-side oracle only
+        o = ck.run_go("c20", [bi_go_case({"src": rep["src"], "pre": rep.get("pre", "")})])[0]
+        if "out" not in o or o["out"]["stage"] != "ok":
+            print("replay: program not evaluated: %s" % json.dumps(o)[:300])
+            print("VIOLATION property=C20 replay=%s" % path)
+            return 1
+        v, why = bi_judge(o["out"])
+        print("replay (built-in stream, Go-side oracle): naive %s, semi-naive %s: %s %s"
+              % (o["out"]["naive"]["err"] or "ok", o["out"]["semi"]["err"] or "ok", v, why))
+        if v == "violation":
+            print("VIOLATION property=C20 replay=%s" % path)
+            return 1
+        return 0
     prog = rep["program"]
     gc = go_case(prog)
     if "src" in rep:
@@ -745,11 +1208,16 @@ META = {
             "templates of non-linear recursion with asymmetric roles (two and three occurrences of the recursive predicate "
             "in any premise position, mutual recursion mentioning the other predicate twice, recursion through arithmetic "
             "over pairs of derived numbers; data in a random derivation order, so that the newest fact of a rule instance "
-            "sits at a later occurrence) with "
+            "sits at a later occurrence), programs with wildcards inside negated atoms (`!path(X, _)`, read existentially by "
+            "both models) with "
             "engine.EvalProgramNaive and engine.EvalProgram on copies of one store; the two Go fact sets must be equal "
             "(the property itself, decided on the implementation's outputs) and each equal to its model evaluated inside Coq; "
-            "thorough adds an exhaustive block over a small rule schema.",
+            "thorough adds an exhaustive block over a small rule schema. Built-in predicate atoms (:match_pair, :match_cons, "
+            ":list:member with output places before the recursive atom that shares their output variables, :lt/:le/:gt/:ge, "
+            ":match_nil, negated ground tests; every premise order the modes accept) are outside the Coq models: that stream is "
+            "judged by a Go-side oracle only - the two engines' error classes and fact sets must be equal.",
     "note": "Trusted: Coq kernel + vm_compute; hand-written models tied to the Go code by differential evaluation only. "
+            "The built-in predicate stream has no model behind it (Go naive vs Go semi-naive only). "
             "Programs with transforms, evaluation errors of the semi-naive engine (not accepted by both), hash collisions in "
             "stores (F8) are outside. Both engines stratify themselves; the theorem uses one common valid stratification.",
 }
